@@ -387,7 +387,7 @@ fn run_inner(input: &str) -> String {
     }
 }
 
-fn run(input: &str) -> String {
+pub fn run(input: &str) -> String {
     let input = input.to_string();
     match catch_unwind(AssertUnwindSafe(|| run_inner(&input))) {
         Ok(s) => s,
@@ -943,7 +943,7 @@ fn gen_gd(rng: &mut Rng) -> String {
     format!("gd|{}|{}|{}|{}|{}", ac, join(&coords, ","), if sh.is_empty() { "-".to_string() } else { sh.join(";") }, glyph, hex(&data))
 }
 
-fn gen(rng: &mut Rng) -> String {
+pub fn gen(rng: &mut Rng) -> String {
     match rng.below(40) {
         0..=3 => {
             let a = gen_axis(rng);
